@@ -683,6 +683,16 @@ int config_write_file(config_t *config, const char *filename)
 
   config_write(config, stream);
 
+  /* Push the data out of the stdio buffer (so that fsync() below covers it)
+   * and detect any write that failed.
+   */
+  if((fflush(stream) != 0) || ferror(stream))
+  {
+    fclose(stream);
+    __config_set_error(config, CONFIG_ERR_FILE_IO, __io_error);
+    return(CONFIG_FALSE);
+  }
+
   if(config_get_option(config, CONFIG_OPTION_FSYNC))
   {
     int fd = posix_fileno(stream);
@@ -698,7 +708,12 @@ int config_write_file(config_t *config, const char *filename)
     }
   }
 
-  fclose(stream);
+  if(fclose(stream) != 0)
+  {
+    __config_set_error(config, CONFIG_ERR_FILE_IO, __io_error);
+    return(CONFIG_FALSE);
+  }
+
   __config_set_error(config, CONFIG_ERR_NONE, NULL);
   return(CONFIG_TRUE);
 }
